@@ -116,11 +116,27 @@ Definition shape_ok (I : inst) : bool :=
   && (length (i_inc I) =? i_nc I) && (length (i_bnd I) =? i_nf I)
   && (length (i_drows I) =? i_nc I) && (length (i_grows I) =? i_nd I * i_nf I).
 
+(* the same two matrix certificates with a PURELY RELATIVE tolerance (no absolute floor):
+   |value - target| <= tol * (sum |terms| + |target|); entries of any magnitude (micrometre
+   cells, tiny coupling coefficients) are held to the same relative accuracy *)
+Definition nearr (tol scale x y : Q) : bool := Qle_bool (Qabs (x - y)) (tol * scale).
+
+Definition rel_ok (tol : Q) (I : inst) : bool :=
+  forallb (fun c =>
+    forallb (fun m => nearr tol (rabs (nth c (i_drows I) []) (basis I m) + Qabs (div_target I c m))
+                            (rdot (nth c (i_drows I) []) (basis I m)) (div_target I c m))
+            (seq 0 (nparam I)))
+    (seq 0 (i_nc I))
+  && forallb (fun q => nearr tol (rabs (nth q (i_grows I) []) ones + Qabs (grad_target I q))
+                             (rdot (nth q (i_grows I) []) ones) (grad_target I q))
+             (seq 0 (i_nd I * i_nf I)).
+
 Definition check (tol : Q) (I : inst) : bool :=
-  shape_ok I && div_ok tol I && grad_ok tol I && (if i_planar I then geo_ok tol I else true).
+  shape_ok I && div_ok tol I && grad_ok tol I && (if i_planar I then geo_ok tol I else true)
+  && rel_ok tol I.
 
 Definition check_diag (tol : Q) (I : inst) :=
-  (shape_ok I, div_ok tol I, grad_ok tol I, geo_ok tol I).
+  (shape_ok I, div_ok tol I, grad_ok tol I, geo_ok tol I, rel_ok tol I).
 
 (* ------------------------------------------------------------------ the face-sum form of
    the divergence (method level): one cell, faces given as (sign, normal, face centre) *)
